@@ -23,7 +23,7 @@ import gas as REF                                  # noqa: E402
 
 META = {
     'level': 'proof',
-    'decides': 'every gas constant by value; the complete decision tables of the storage, account-access, call and self-destruct cost functions for every SpecId and every abstract input; the coefficients of the word/byte-linear formulas, the memory formula, intrinsic gas and the calldata floor; which arithmetic in the gas functions can wrap',
+    'decides': 'every gas constant by value; the complete decision tables of the storage, account-access, call and self-destruct cost functions for every SpecId and every abstract input; the coefficients of the word/byte-linear formulas, the memory formula, intrinsic gas and the calldata floor; which arithmetic in the gas functions can wrap; log2floor = floor(log2) on all (limb, leading-zeros) cells by complete unrolling',
     'does_not_decide': 'modexp and other precompile pricing (C23); that saturation reports out-of-gas exactly when the true value exceeds 64 bits (argued: a saturated cost exceeds any remaining gas); behaviour for calldata longer than 2^59 bytes (listed exceptions in R4)',
     'explanation': 'Decision-table extraction over MIR and evaluation over a finite abstract domain (SpecId x equality patterns x booleans); polynomial normalisation of extracted expressions; const evaluation by the compiler. Oracle: rules/reference/gas.py written from the EIPs.',
 }
